@@ -207,6 +207,15 @@ def install_shims(np=True, pickle=True, pool=True):
     core.ProfilingDataset.__repr__ = lambda self: '<profiling dataset>'
 
 
+def install_db_shims():
+    """symbolic mode only: CrossHair's set() patch breaks the unbound `set.intersection(a, b)` call in database.get_examples"""
+    if not SYMBOLIC:
+        return
+    import lazy_dataset.database as database
+    from engine.shims import builtins_shim
+    database.set = builtins_shim.PySet
+
+
 def pin_real_floats():
     """C17 only: make CrossHair model `float` with real arithmetic (the IEEE model cannot be exhausted)"""
     if not SYMBOLIC:
